@@ -13,7 +13,9 @@ RULE = ("batches of 1-2 torrents (v1/v2/hybrid, own creators or reference encode
         "next to unrelated files and decoys (different size / different first byte / every "
         "byte different); rebuild into an empty destination; the result is verified with the "
         "reference verifier and the count compared with the files present; two fixed witnesses "
-        "of the known findings run first; distinct by (versions, residues, #search dirs, decoy "
+        "of the known findings run first; fixed and random search trees whose DIRECTORY names "
+        "coincide with file names of the torrent (file named like its parent, search directory "
+        "named like a file, same-named ancestors; v1, aligned v1, v2, hybrid); distinct by (versions, residues, #search dirs, decoy "
         "kinds); non-trivial when >= 2 search locations or a decoy or a boundary-exact/empty file")
 
 
@@ -26,7 +28,8 @@ def run_case(run, drv, case_seed, tier):
         metas = [rb.write_metafile(box, t, i) for i, t in enumerate(torrents)]
         mdirname, rb.METADIR[0] = rb.METADIR[0], "metas"
         case["metadir"] = mdirname
-        sdirs, placed = rb.scatter(rng, box, torrents, decoys="safe")
+        case["clash"] = rng.random() < 0.3      # directories named like wanted files above the copies
+        sdirs, placed = rb.scatter(rng, box, torrents, decoys="safe", clash=case["clash"])
         dest = os.path.join(box, "dest")
         os.makedirs(dest)
         flavour = rng.choice(["plain", "plain", "symlink", "below-symlink", "interrupted"])
@@ -68,7 +71,8 @@ def run_case(run, drv, case_seed, tier):
     run.case([[t["version"], t["single"], t["source"],
                sorted(len(cr.blob_from_token(tok)) % t["pl"] for _, tok in t["files"])]
               for t in torrents] + [len(sdirs), kinds], nt, sample=case,
-             classes=[f"v{t['version']}" for t in torrents] + [f"dirs={len(sdirs)}"] + kinds)
+             classes=[f"v{t['version']}" for t in torrents] + [f"dirs={len(sdirs)}"] + kinds +
+             (["dir-named-like-file"] if case["clash"] else []))
 
 
 def judge(run, case, torrents, metas, dest, count, flags=None, expect_wrong=None):
@@ -236,6 +240,67 @@ def fixed_shapes(run):
             run.case(["fixed-empty", version, bool(opts)], True, sample=case, classes=["fixed-shape"])
 
 
+CLASH_FILES = [("readme.txt", "r1.700"), ("data/data", "r2.34002"), ("data/other.bin", "r3.16401"),
+               ("data/empty.cfg", "r1.0"), ("src/src", "r4.16384"), ("tclash", "r6.300"), ("zz/tail.bin", "r5.31005")]
+
+
+def clash_layouts(box, t):
+    """Search trees in which DIRECTORY names on the way to the intact copies coincide with file
+    names of the torrent (the property says: under the same file names, at any depth).
+    Yields (label, [search dirs]); every layout holds an intact copy of every file."""
+    files = [(p, b.bytes()) for p, b in rb.torrent_files(t)]
+    # (1) a plain copy of the payload: `data/data`, `src/src`, `<name>/<name>` are files named
+    #     like their own parent directory
+    s = os.path.join(box, "s1")
+    write_tree(os.path.join(s, "old", "disk2", t["name"]), files)
+    write_tree(s, [("old/notes.txt", b"unrelated"), ("misc/other.bin", b"\x07" * 16401),
+                   ("misc/readme.txt", b"another readme")])
+    yield "file-named-like-parent", [s]
+    # (2) the search directories themselves are named like wanted files
+    s_a, s_b = os.path.join(box, "s2", "data"), os.path.join(box, "s2", "readme.txt")
+    write_tree(s_a, [(f"k{i}/" + p.split("/")[-1], d) for i, (p, d) in enumerate(files[:4])])
+    write_tree(s_b, [(p.split("/")[-1], d) for p, d in files[4:]])
+    yield "search-dir-named-like-file", [s_a, s_b]
+    # (3) unrelated directories named like wanted files above the (flat) copies
+    s = os.path.join(box, "s3")
+    write_tree(s, [("src/deep/other.bin/k%d/" % i + p.split("/")[-1], d) for i, (p, d) in enumerate(files)])
+    write_tree(s, [("src/tail.bin/also-a-directory/x", b"x"), ("0-first/data", b"decoy of another size")])
+    yield "ancestor-named-like-file", [s]
+
+
+def name_clash_shapes(run, drv):
+    """Fixed shapes: v1, aligned v1, v2, hybrid x three search-tree layouts with name clashes,
+    library (with the model tie) and command line."""
+    for version in (1, 2, 3):
+        for opts in ({}, {"align": True}) if version == 1 else ({},):
+            t = {"name": "tclash", "files": list(CLASH_FILES), "pl": 16384, "version": version,
+                 "single": False, "source": "own", "create_opts": dict(opts)}
+            with sandbox("c13n") as box:
+                metas = [rb.write_metafile(box, t, 0)]
+                for k, (label, sdirs) in enumerate(clash_layouts(box, t)):
+                    case = {"fixed": "dir-named-like-wanted-file", "layout": label, "version": version, "opts": opts}
+                    dest = os.path.join(box, f"dest{k}")
+                    os.makedirs(dest)
+                    try:
+                        if k == 1:
+                            count = impl.cli(["rebuild", "-m", metas[0][0], "-c"] + sdirs + ["-d", dest])
+                        elif k == 0:
+                            count = impl.rebuild([metas[0][0]], sdirs, dest)
+                        else:
+                            count, raised = rb.rebuild_with_model(box, [metas[0][0]], sdirs, dest, drv, case)
+                            if raised:
+                                run.fail("impl-vs-spec", case, {"raised": raised})
+                    except Exception as exc:
+                        from harness.common import raised_in_repo
+                        if not (raised_in_repo(exc) or type(exc).__name__ == "CliExit"):
+                            raise
+                        run.fail("impl-vs-spec", case, {"raised": repr(exc)[:200]})
+                        continue
+                    judge(run, case, [t], metas, dest, count)
+                    run.case(["fixed-clash", label, version, bool(opts)], True, sample=case,
+                             classes=["dir-named-like-file"])
+
+
 def run(tier, seed, replay=None):
     impl.use_repo()
     run = Run("C13", tier, seed, RULE)
@@ -247,6 +312,7 @@ def run(tier, seed, replay=None):
         guarded(run, {"witness": "KF-C13-2"}, witness_kf2, run)
         guarded(run, {"witness": "KF-C13-3"}, witness_kf3, run)
         guarded(run, {"fixed": "shapes"}, fixed_shapes, run)
+        guarded(run, {"fixed": "dir-named-like-wanted-file"}, name_clash_shapes, run, drv)
         seeds = [] if replay else [run.rng.randrange(10 ** 9) for _ in range(70 if tier == "quick" else 700)]
     for s in seeds:
         guarded(run, {"case_seed": s}, run_case, run, drv, s, tier)
